@@ -198,6 +198,8 @@ pub enum KaPolicy { Prompt(u64), Never, WrongId(u64), Duplicate(u64), StopAfter(
 #[derive(Clone, Debug)]
 pub enum Act {
     Sleep(u64),
+    /// sleep until this absolute virtual time (ms); nothing if it has passed
+    SleepUntil(u64),
     /// a whole frame (VarInt length, VarInt id, body), delivered atomically
     Frame { id: i32, body: Vec<u8> },
     /// raw bytes delivered atomically (malformed frames, segments)
@@ -482,6 +484,7 @@ pub fn run_scenario(sc: &Scenario, rng: &mut Rng) -> RunRecord {
         for act in sc.acts.iter() {
             match act {
                 Act::Sleep(ms) => { let t = pipe.now_ms() + ms; advance_until!(t, false); }
+                Act::SleepUntil(t) => { let t = *t; if t > pipe.now_ms() { advance_until!(t, false); } }
                 Act::Frame { id, body } => {
                     if is_done!() { continue; }
                     let f = frame_bytes(*id, body);
